@@ -139,6 +139,30 @@ pub fn compare(servers: &mut [Server], engine: &str, focus: &str, size: u32, byt
     Ok((classes, nviol_any))
 }
 
+/// C20: every feature set that includes `logger` runs the program with a recording logger
+pub fn logger_check(servers: &mut [Server], focus: &str, size: u32, bytes: &[u8]) -> Result<(Vec<String>, u64), String> {
+    let mut classes = Vec::new();
+    let mut n = 0;
+    for s in servers.iter_mut() {
+        let a = match s.ask("vm", focus, size, "m", bytes) {
+            Some(a) => a,
+            None => return Err(format!("feature set [{}]: process died while executing the program", s.name)),
+        };
+        n += a.nviol;
+        for v in a.first.split(" ;; ") {
+            let mut it = v.splitn(2, '|');
+            let props = it.next().unwrap_or("");
+            if props.split('+').any(|p| p == "C20") {
+                return Err(format!("feature set [{}]: {}", s.name, it.next().unwrap_or("")));
+            }
+        }
+        if classes.is_empty() {
+            classes = a.classes;
+        }
+    }
+    Ok((classes, n))
+}
+
 pub fn nontrivial(classes: &[String]) -> bool {
     let has = |c: &str| classes.iter().any(|x| x == c);
     let n = (has("held-calls-flushed") || has("prep-actor-terminated-with-held-calls")) as u32
@@ -157,7 +181,8 @@ pub fn worker(a: &[String]) -> i32 {
     let cases: u32 = a[4].parse().unwrap();
     let lenlo: usize = a[5].parse().unwrap();
     let lenhi: usize = a[6].parse().unwrap();
-    let servers = RefCell::new(Server::spawn_all(false));
+    let logger_mode = a.get(8).map(|x| x == "logger").unwrap_or(false);
+    let servers = RefCell::new(Server::spawn_all(logger_mode));
     let nservers = servers.borrow().len();
     struct St {
         evals: u64,
@@ -177,7 +202,11 @@ pub fn worker(a: &[String]) -> i32 {
     });
     let strat = proptest::collection::vec(any::<u8>(), lenlo..lenhi);
     let result = runner.run(&strat, |bytes| {
-        let r = compare(&mut servers.borrow_mut(), "vm", &focus, size, &bytes);
+        let r = if logger_mode {
+            logger_check(&mut servers.borrow_mut(), &focus, size, &bytes)
+        } else {
+            compare(&mut servers.borrow_mut(), "vm", &focus, size, &bytes)
+        };
         let mut s = st.borrow_mut();
         match r {
             Ok((classes, nviol)) => {
@@ -189,7 +218,7 @@ pub fn worker(a: &[String]) -> i32 {
                     for c in &classes {
                         *s.classes.entry(c.clone()).or_insert(0) += 1;
                     }
-                    if nontrivial(&classes) {
+                    if (logger_mode && classes.iter().any(|c| c == "nt:C20")) || (!logger_mode && nontrivial(&classes)) {
                         let h = vcore::fnv(&bytes);
                         if s.nt.insert(h) && s.samples.len() < 1 && bytes.len() < 300 {
                             let tr = servers.borrow_mut()[0].ask("vm", &focus, size, "mt", &bytes).map(|a| a.trace).unwrap_or_default();
@@ -206,7 +235,7 @@ pub fn worker(a: &[String]) -> i32 {
                 if m.contains("process died") {
                     // restart the servers so that shrinking can continue
                     drop(s);
-                    *servers.borrow_mut() = Server::spawn_all(false);
+                    *servers.borrow_mut() = Server::spawn_all(logger_mode);
                 }
                 Err(TestCaseError::fail(m))
             }
@@ -231,7 +260,7 @@ pub fn worker(a: &[String]) -> i32 {
         fs::write(
             &path,
             serde_json::to_vec_pretty(&json!({
-                "property": prop, "engine": "matrix", "focus": focus, "size": size,
+                "property": prop, "engine": if logger_mode { "matrix-logger" } else { "matrix" }, "focus": focus, "size": size,
                 "bytes": hex(&bytes), "message": reason.to_string(),
             }))
             .unwrap(),
@@ -244,14 +273,20 @@ pub fn worker(a: &[String]) -> i32 {
     code
 }
 
-pub fn run_leg(prop: &str, idx: usize, thorough: bool, deadline: std::time::Instant) -> LegResult {
-    let total: u32 = if thorough { 400_000 } else { 40_000 };
+pub fn run_leg(prop: &str, idx: usize, thorough: bool, deadline: std::time::Instant, logger_mode: bool) -> LegResult {
+    let total: u32 = if logger_mode {
+        if thorough { 2_000_000 } else { 160_000 }
+    } else if thorough { 400_000 } else { 40_000 };
     let nw = 8u32;
     let outdir = Path::new(VERIF).join(format!("build/work/{}-{}", prop, idx));
     let _ = fs::remove_dir_all(&outdir);
     fs::create_dir_all(&outdir).unwrap();
     let exe = std::env::current_exe().unwrap();
-    let foci = ["C01", "C02", "C05", "C16", "C03", "C04", "C06", ""];
+    let foci = if logger_mode {
+        ["C02", "C03", "C04", "C03", "C02", "C04", "C03", ""]
+    } else {
+        ["C01", "C02", "C05", "C16", "C03", "C04", "C06", ""]
+    };
     let mut kids = Vec::new();
     for w in 0..nw {
         let out = outdir.join(format!("m{}.json", w));
@@ -267,6 +302,7 @@ pub fn run_leg(prop: &str, idx: usize, thorough: bool, deadline: std::time::Inst
                 "0",
                 if thorough { "900" } else { "300" },
                 out.to_str().unwrap(),
+                if logger_mode { "logger" } else { "all" },
             ])
             .stdout(Stdio::null())
             .stderr(Stdio::null())
@@ -317,11 +353,45 @@ pub fn run_leg(prop: &str, idx: usize, thorough: bool, deadline: std::time::Inst
             (Some(st), Err(_)) => res.inconclusive.push(format!("matrix worker died without a report: {:?}", st)),
         }
     }
-    res.extra.insert("feature_set_list".into(), json!(configs().into_iter().map(|c| c.1).collect::<Vec<_>>()));
+    res.extra.insert(
+        "feature_set_list".into(),
+        json!(configs().into_iter().map(|c| c.1).filter(|f| !logger_mode || f.contains("logger")).collect::<Vec<_>>()),
+    );
     res
 }
 
 /// Replay: run the program on every feature set with tracing and show the first divergence
+pub fn replay_logger(v: &Value, path: &Path) -> i32 {
+    let bytes = crate::unhex(v["bytes"].as_str().unwrap());
+    let focus = v["focus"].as_str().unwrap_or("");
+    let size = v["size"].as_u64().unwrap_or(0) as u32;
+    let mut servers = Server::spawn_all(true);
+    for s in servers.iter_mut() {
+        match s.ask("vm", focus, size, "mt", &bytes) {
+            Some(a) => {
+                for x in a.first.split(" ;; ") {
+                    let mut it = x.splitn(2, '|');
+                    if it.next().unwrap_or("").split('+').any(|p| p == "C20") {
+                        for l in &a.trace {
+                            println!("{}", l);
+                        }
+                        println!("  feature set [{}]: {}", s.name, it.next().unwrap_or(""));
+                        println!("VIOLATION property=C20 replay={}", path.display());
+                        return 1;
+                    }
+                }
+            }
+            None => {
+                println!("  feature set [{}]: process died", s.name);
+                println!("VIOLATION property=C20 replay={}", path.display());
+                return 1;
+            }
+        }
+    }
+    println!("replay: C20 holds on this program in all {} logger feature sets", servers.len());
+    0
+}
+
 pub fn replay(v: &Value, path: &Path) -> i32 {
     let bytes = crate::unhex(v["bytes"].as_str().unwrap());
     let focus = v["focus"].as_str().unwrap_or("");
